@@ -138,7 +138,7 @@ def _exec_cases(rng, schema, sdl, tree, origin, null_bias=False):
 def generate(rng, tier):
     quick = tier == "quick"
     n_schemas = 5 if quick else 16
-    n_valid = 22 if quick else 40
+    n_valid = 18 if quick else 40
     n_mut = 14 if quick else 40
     cases = []
     for si in range(n_schemas):
